@@ -2,6 +2,8 @@
 // shrinking, replay. One Engine per binary. See DESIGN.md §2.3.
 #pragma once
 #include <sys/wait.h>
+#include <sys/stat.h>
+#include <algorithm>
 #include <sys/personality.h>
 #include <unistd.h>
 #include <fcntl.h>
